@@ -545,6 +545,10 @@ class SNum(Sym):
     def _cmp(self, o, f, name=None):
         if _is_tensor(o) and name:
             return _TENSOR_BINOP(name, self, o)
+        if isinstance(o, float) and math.isinf(o):
+            # extended reals: a finite symbolic value against +-inf
+            pos = o > 0
+            return {"lt": pos, "le": pos, "gt": not pos, "ge": not pos, "eq": False, "ne": True}[name]
         if not _other_ok(o):
             return NotImplemented
         za, zb = _arith_pair(self, o)
